@@ -417,6 +417,7 @@ TIES = {
     'C16': [('SrcDev.v', ['PyPrelude', 'PgmState', 'AeState', 'SrcAe', 'EquivAe', 'DevState', 'SrcDev', 'EquivDev'], ['EquivAe', 'EquivDev']),
             ('SrcHl.v', ['PyPrelude', 'PgmState', 'AeState', 'SrcHl', 'EquivHl'], 'EquivHl')],
     'C11': ('SrcUf.v', ['PyPrelude', 'PgmState', 'NpState', 'SrcUf', 'EquivUf'], 'EquivUf'),
+    'C14': ('SrcMk.v', ['PyPrelude', 'PgmState', 'MkState', 'SrcMk', 'EquivMk'], 'EquivMk'),
     'C18': ('SrcSs.v', ['PyPrelude', 'PgmState', 'SsState', 'SrcSs', 'EquivSs'], 'EquivSs'),
     'C19': ('SrcPa.v', ['PyPrelude', 'PgmState', 'PaState', 'SrcPa', 'EquivPa'], 'EquivPa'),
     'C07': ('SrcTr.v', ['PyPrelude', 'PgmState', 'TrState', 'SrcTr', 'EquivTr'], 'EquivTr'),
